@@ -1,6 +1,29 @@
 /-
 Whole-program forms of C12, C09, C11 (and C03): theorems about `TLX.Export.exportFile` / `framesFrom`, lifting the reader,
-key-log and checksum results through the read loop `TLX.Ingest`.
+key-log and checksum results through the read loop `TLX.Ingest`. For every hash suite `H`, cipher primitives `P`, mask.
+
+1. C12  `export_container_independent` — two container variants of one capture ⇒ byte-identical outcome, under
+        `hkeep` (both can hold the secrets blocks) and `FloatResidue` (the IEEE-754 step: `Container.Time.toFloat` is
+        opaque to the kernel, so the residue of `Props.C12` stays a hypothesis; it FAILS for clocks whose quotient
+        ticks/divisor exceeds 2^31 s — replayed on the real tool by harness/export_inputs_replay.py: 1 µs difference in
+        the output, tool = model). `export_layout_independent`: no float hypothesis between variants with the same clock.
+2. C09  `dsb_position_irrelevant_tls` (a DSB anywhere: TLS decrypts at the end of the run), `dsb_position_irrelevant_partial`
+        (whole output; DSB moved across a stretch without QUIC datagrams), `dsb_position_matters_to_the_quic_loop` (why QUIC is
+        excluded: a QUIC session derives keys when the datagram is read; real tool: 10 frames vs 0 frames),
+        `export_key_delivery_independent` (`-s` file ↔ DSBs in front, any numbers, key logs alike for every session:
+        `SameView`; texts: `delivery_keys`, `delivery_same_keys_of_text`, `foreign_line_adds_nothing`,
+        `sameView_of_perm_across`), `export_key_delivery_independent_file` (files, same block layout),
+        `export_dsb_only_without_s`.
+        MISSING: (a) permuting lines of the SAME client random under the consistency condition (needs the order-independence
+        of `KeySchedule.devTls13Keys` / `devQuicKeys`, which `Props.C09` proves for the lookup model `Keylog.installed`, not
+        yet connected to `Pipeline.genKeys`); (b) file level with a different NUMBER of blocks (tags = positions; needs the
+        invariance of the session machines under renaming of tags).
+3. C11  `checksum_filter_loop`, `export_checksum_filter_frames`, `export_checksum_filter` (with `-c` = without `-c` on the
+        items minus the rejected frames; at file level stated on the read loop's items for the same renaming reason),
+        `ingest_verdict_rfc1071` (the verdict bit is the RFC 1071 receiver's verdict, through dpkt's dissection),
+        `export_ignores_checksums_without_c`, `checksum_fields_not_dissected`.
+4. C03  `export_bystander_unaffected`, `bystander_frames_same`, `bystander_in_output` (TLS conversations; victims: any items
+        without key material on other TCP flows, UDP / QUIC, non-IP).
 -/
 import TLX.Props.Export
 import TLX.Props.ExportProps
